@@ -229,6 +229,12 @@ type Aff struct {
 	hdrInv   map[*ssa.BasicBlock][]Con
 	busy     map[*ssa.BasicBlock]bool
 	hdrBusy  map[*ssa.BasicBlock]bool
+	defFacts map[string][]Con // definitional facts of derived symbols (quotients, remainders)
+	// Assume: facts taken as given at the entry of a function (verified requires clauses).
+	Assume map[*ssa.Function][]Con
+	// LemmaFacts: extra facts valid throughout a function, supplied by reviewed lemmas.
+	LemmaFacts func(a *Aff, fn *ssa.Function) []Con
+	lemmaMemo  map[*ssa.Function][]Con
 	hitBusy  int
 	// Equate lets a property identify opaque values (lemmas), e.g. results of a pure helper on the same prefix.
 	Equate func(v ssa.Value) ssa.Value
@@ -238,7 +244,7 @@ func NewAff(p *Prog) *Aff {
 	return &Aff{P: p, names: map[ssa.Value]string{}, lenName: map[ssa.Value]string{}, desc: map[string]string{},
 		symType: map[string]types.Type{}, symLen: map[string]bool{}, memo: map[ssa.Value]*Lin{},
 		loopInv: map[*ssa.Function][]Con{}, loopDone: map[*ssa.Function]bool{}, ens: map[*ssa.Function]*ensures{}, ensBusy: map[*ssa.Function]bool{},
-		factMemo: map[*ssa.BasicBlock][]Con{}, prepared: map[*ssa.Function]bool{}, hdrInv: map[*ssa.BasicBlock][]Con{}, busy: map[*ssa.BasicBlock]bool{}, hdrBusy: map[*ssa.BasicBlock]bool{}}
+		factMemo: map[*ssa.BasicBlock][]Con{}, prepared: map[*ssa.Function]bool{}, hdrInv: map[*ssa.BasicBlock][]Con{}, busy: map[*ssa.BasicBlock]bool{}, hdrBusy: map[*ssa.BasicBlock]bool{}, defFacts: map[string][]Con{}, Assume: map[*ssa.Function][]Con{}, lemmaMemo: map[*ssa.Function][]Con{}}
 }
 
 func (a *Aff) fnTag(v ssa.Value) string {
@@ -412,6 +418,45 @@ func (a *Aff) lin(v ssa.Value) *Lin {
 			if k, ok := a.Lin(x.Y).IsConst(); ok && k >= 0 && k < 40 {
 				return a.Lin(x.X).Scale(1 << uint(k))
 			}
+		case token.QUO, token.REM:
+			if !isInteger(x.Type()) {
+				break
+			}
+			k, isC := a.Lin(x.Y).IsConst()
+			lx := a.Lin(x.X)
+			if isC && k > 0 && (isUnsigned(x.X.Type()) || a.Prove(x.Block(), GE(lx, LinConst(0)))) {
+				s := a.sym(v)
+				if _, done := a.defFacts[s]; !done {
+					q := LinSym(s)
+					if x.Op == token.QUO {
+						// k*q <= x <= k*q + k-1, q >= 0
+						a.defFacts[s] = []Con{GE(lx, q.Scale(k)), LE(lx, q.Scale(k).AddConst(k-1)), GE(q, LinConst(0))}
+					} else {
+						a.defFacts[s] = []Con{GE(q, LinConst(0)), LE(q, LinConst(k-1)), LE(q, lx)}
+					}
+				}
+				return LinSym(s)
+			}
+		case token.SHR:
+			if k, ok := a.Lin(x.Y).IsConst(); ok && k >= 0 && k < 40 && (isUnsigned(x.X.Type())) {
+				s := a.sym(v)
+				lx := a.Lin(x.X)
+				if _, done := a.defFacts[s]; !done {
+					q := LinSym(s)
+					m := int64(1) << uint(k)
+					a.defFacts[s] = []Con{GE(lx, q.Scale(m)), LE(lx, q.Scale(m).AddConst(m-1)), GE(q, LinConst(0))}
+				}
+				return LinSym(s)
+			}
+		case token.AND:
+			// x & c  is within 0..c for a non-negative constant mask
+			if k, ok := a.Lin(x.Y).IsConst(); ok && k >= 0 && isInteger(x.Type()) {
+				s := a.sym(v)
+				if _, done := a.defFacts[s]; !done {
+					a.defFacts[s] = []Con{GE(LinSym(s), LinConst(0)), LE(LinSym(s), LinConst(k))}
+				}
+				return LinSym(s)
+			}
 		}
 	case *ssa.Convert:
 		if !isInteger(x.Type()) || !isInteger(x.X.Type()) {
@@ -517,12 +562,19 @@ func (a *Aff) condCons(cond ssa.Value, val bool) []Con {
 func (a *Aff) intrinsic(ls ...*Lin) []Con {
 	seen := map[string]bool{}
 	var out []Con
-	for _, l := range ls {
+	work := append([]*Lin{}, ls...)
+	for len(work) > 0 {
+		l := work[len(work)-1]
+		work = work[:len(work)-1]
 		for s := range l.T {
 			if seen[s] {
 				continue
 			}
 			seen[s] = true
+			for _, df := range a.defFacts[s] {
+				out = append(out, df)
+				work = append(work, df.L)
+			}
 			if a.symLen[s] {
 				out = append(out, Con{LinSym(s)})
 			} else if t, ok := a.symType[s]; ok && isUnsigned(t) {
@@ -572,6 +624,20 @@ func (a *Aff) FactsAt(b *ssa.BasicBlock) []Con {
 					out = append(out, a.ensuresFacts(ifi.Cond, k == 0)...)
 				}
 			}
+		}
+	}
+	if b.Index == 0 {
+		out = append(out, a.phiWebFacts(b.Parent())...)
+		out = append(out, a.Assume[b.Parent()]...)
+		if a.LemmaFacts != nil {
+			fn := b.Parent()
+			lf, ok := a.lemmaMemo[fn]
+			if !ok {
+				a.lemmaMemo[fn] = nil
+				lf = a.LemmaFacts(a, fn)
+				a.lemmaMemo[fn] = lf
+			}
+			out = append(out, lf...)
 		}
 	}
 	out = append(out, a.pathJoinFacts(b)...)
@@ -1253,4 +1319,115 @@ func (a *Aff) alwaysNonNilResult(f *ssa.Function, idx int) bool {
 		nonNilMemo[f][idx] = 1
 	}
 	return ok
+}
+
+// phiWebFacts: lower bounds for integer phis that are only ever initialised
+// with values >= L (constants) and advanced by non-negative constants, also
+// when the advance is conditional (so no constant-step invariant applies).
+func (a *Aff) phiWebFacts(fn *ssa.Function) []Con {
+	var out []Con
+	for _, b := range fn.Blocks {
+		for _, ins := range b.Instrs {
+			phi, ok := ins.(*ssa.Phi)
+			if !ok {
+				break
+			}
+			if !isInteger(phi.Type()) {
+				continue
+			}
+			seen := map[ssa.Value]bool{}
+			lo := int64(1 << 60)
+			okWeb := true
+			var walk func(v ssa.Value, depth int)
+			walk = func(v ssa.Value, depth int) {
+				if !okWeb || seen[v] {
+					return
+				}
+				if depth > 16 {
+					okWeb = false
+					return
+				}
+				seen[v] = true
+				switch x := v.(type) {
+				case *ssa.Phi:
+					for _, e := range x.Edges {
+						walk(e, depth+1)
+					}
+				case *ssa.BinOp:
+					if x.Op == token.ADD {
+						if k, isC := constInt(x.Y); isC && k >= 0 {
+							walk(x.X, depth+1)
+							return
+						}
+					}
+					okWeb = false
+				case *ssa.Const:
+					if k, isC := constInt(x); isC {
+						if k < lo {
+							lo = k
+						}
+						return
+					}
+					okWeb = false
+				default:
+					okWeb = false
+				}
+			}
+			walk(phi, 0)
+			if okWeb && lo < (1<<60) {
+				out = append(out, GE(LinSym(a.sym(phi)), LinConst(lo)))
+			}
+		}
+	}
+	return out
+}
+
+// substCon rewrites the symbols of c according to m.
+func substCon(c Con, m map[string]*Lin) Con {
+	n := NewLin()
+	n.C.Set(c.L.C)
+	for s, v := range c.L.T {
+		if r, ok := m[s]; ok {
+			n = n.AddScaled(r, v)
+		} else {
+			n = n.AddScaled(LinSym(s), v)
+		}
+	}
+	return Con{n}
+}
+
+// ReturnInfeasibleAt: the callee's return `ret` cannot be taken for the call
+// `call`: the facts that hold at the return (in terms of the actual
+// arguments) contradict what is known at the call site.
+func (a *Aff) ReturnInfeasibleAt(call *ssa.Call, ret *ssa.Return) bool {
+	callee := call.Call.StaticCallee()
+	if callee == nil || ret.Parent() != callee {
+		return false
+	}
+	m := map[string]*Lin{}
+	for i, p := range callee.Params {
+		if i >= len(call.Call.Args) {
+			break
+		}
+		arg := call.Call.Args[i]
+		switch p.Type().Underlying().(type) {
+		case *types.Slice:
+			m[a.lenSym(p)] = a.LenOf(arg)
+		case *types.Basic:
+			if isInteger(p.Type()) {
+				m[a.sym(p)] = a.Lin(arg)
+			}
+		}
+	}
+	var all []Con
+	for _, c := range a.FactsAt(ret.Block()) {
+		all = append(all, substCon(c, m))
+	}
+	all = append(all, a.FactsAt(call.Block())...)
+	var ls []*Lin
+	for _, c := range all {
+		ls = append(ls, c.L)
+	}
+	all = append(all, a.intrinsic(ls...)...)
+	return infeasible(all)
 }
